@@ -16,3 +16,22 @@ CHECKS['C14'] = dict(
                reach=['resolves-to-dot', 'leading-updir', 'absolute', 'shortened'],
                quick=dict(defines=['VERIF_N=6'], bounds='every NUL-free byte string of length 1..6', limits=dict(time=600)),
                thorough=dict(defines=['VERIF_N=8'], bounds='every NUL-free byte string of length 1..8', limits=dict(time=3000, max_paths=2000000)))])
+
+_C16_UNITS = ['util', 'graph', 'state', 'eval_env', 'string_piece_util', 'edit_distance']
+CHECKS['C16'] = dict(
+    title='file names and response files reach commands intact',
+    level_text='Bounded symbolic execution of the real GetShellEscapedString and Edge::EvaluateCommand ($in, $out, $in_newline through EdgeEnv::MakePathList) on symbolic file names; on every path the solver is asked for a name for which a POSIX-sh field-splitting model reads the substituted text as anything but exactly the names. The sh model is itself checked against the real /bin/sh on the solver-produced witnesses of every run.',
+    level_note='Trusted: IR generation and interpreter (cross-checked natively per run), z3, the 30-line sh field-splitting model (compared with the real /bin/sh on sampled vectors each run). Names exclude NUL and newline. Bounds: names per list and bytes per name as stated per job; /bin/sh itself and posix_spawn are not symbolically executed.',
+    assumptions=['file names contain neither NUL nor newline', 'bounds on name length and list length as stated per job', '/bin/sh follows POSIX field splitting and quoting (model validated against the installed /bin/sh on sampled witnesses)'],
+    jobs=[dict(name='escape', harness='c16_escape.cc', units=_C16_UNITS, defines=['MODE_ESCAPE'], reach=['verbatim', 'quoted', 'has-quote'],
+               quick=dict(defines=['VERIF_LEN=3'], bounds='one name, every byte string of length 1..3 without NUL/newline'),
+               thorough=dict(defines=['VERIF_LEN=5'], bounds='one name, every byte string of length 1..5 without NUL/newline', limits=dict(time=3000, max_paths=2000000))),
+          dict(name='in', harness='c16_escape.cc', units=_C16_UNITS, defines=['MODE_IN'], reach=['several-names', 'one-name'],
+               quick=dict(defines=['VERIF_NAMES=2', 'VERIF_LEN=2'], bounds='$in with 1..2 explicit inputs (plus one implicit and one order-only input that must not appear), names of 1..2 bytes'),
+               thorough=dict(defines=['VERIF_NAMES=3', 'VERIF_LEN=2'], bounds='$in with 1..3 explicit inputs, names of 1..2 bytes', limits=dict(time=3000, max_paths=2000000))),
+          dict(name='out', harness='c16_escape.cc', units=_C16_UNITS, defines=['MODE_OUT'], reach=['several-names', 'one-name'],
+               quick=dict(defines=['VERIF_NAMES=2', 'VERIF_LEN=2'], bounds='$out with 1..2 explicit outputs (plus one implicit output that must not appear), names of 1..2 bytes'),
+               thorough=dict(defines=['VERIF_NAMES=3', 'VERIF_LEN=2'], bounds='$out with 1..3 explicit outputs, names of 1..2 bytes', limits=dict(time=3000, max_paths=2000000))),
+          dict(name='in_newline', harness='c16_escape.cc', units=_C16_UNITS, defines=['MODE_NEWLINE'], reach=['several-names', 'one-name'],
+               quick=dict(defines=['VERIF_NAMES=2', 'VERIF_LEN=2'], bounds='$in_newline with 1..2 explicit inputs, names of 1..2 bytes'),
+               thorough=dict(defines=['VERIF_NAMES=3', 'VERIF_LEN=2'], bounds='$in_newline with 1..3 explicit inputs, names of 1..2 bytes', limits=dict(time=3000, max_paths=2000000)))])
